@@ -36,7 +36,6 @@ TOL = 1e-5
 TOL_TICKS = int(round(TOL * ONE))
 MARGIN = 5e-5
 KEY_SHIFT_CLIP = "shift-invariance-with-tanh-clipping"
-KEY_TOPP_EPS = "nan-row:top-p-below-float32-resolution"  # fixed upstream (0ef23b5): a plain violation if it reappears
 
 
 def _dec():
@@ -160,7 +159,7 @@ def real_logits(rows_m, T, C):
     return torch.tensor(vals, dtype=torch.float64).to(torch.float32)
 
 
-def model_line(ms, mask, T, k, p, C, kth, sigma, sel):
+def model_line(ms, mask, T, k, p, C, kth, sigma, sel, ml=1):
     tn, td = T
     n = len(ms)
     if C == 0:
@@ -170,7 +169,7 @@ def model_line(ms, mask, T, k, p, C, kth, sigma, sel):
         xs = list(ms)
         cs = [m * tn // td for m in ms]
     j = lambda l: " ".join(map(str, l))
-    return (f"logits.process {n} {tn} {td} {k} {p[0]} {p[1]} {1 if C else 0} | {j(xs)} | {j([int(b) for b in mask])} | "
+    return (f"logits.process {n} {tn} {td} {k} {p[0]} {p[1]} {1 if C else 0} {ml} | {j(xs)} | {j([int(b) for b in mask])} | "
             f"{j(cs)} | {j(kth)} | {j(sigma)} | {j(sel)}")
 
 
@@ -191,8 +190,24 @@ def frac_list(s):
 
 
 # ---------------------------------------------------------------------------------------------------
-def run_config(ctx, rows_m, masks, T, k, p, C, tag, compare_model=True, raw_logits=None):
-    """One batched call of the real code for one configuration; rows = (exponents, mask)."""
+def near_threshold(qrow, top_p):
+    """Is some cumulative probability of the ascending-sorted row within MARGIN of `1 - top_p`?  (Then the
+    float32 comparison `cum <= 1 - top_p` may go either way and the support is not determined.)"""
+    if not (0 < top_p < 1):
+        return False
+    cum = 0.0
+    for v in sorted(qrow):
+        cum += v
+        if abs(cum - (1 - top_p)) < MARGIN:
+            return True
+    return False
+
+
+def run_config(ctx, rows_m, masks, T, k, p, C, tag, compare_model=True, raw_logits=None, mask_logits=True,
+               shifts=(3.0, -7.5, 100.0, 0.25)):
+    """One batched call of the real code for one configuration; rows = (exponents, mask).
+    `mask_logits=False`: the real code is called with `mask=None, mask_logits=False` (the caller passes
+    all-True masks, which is what that path must be equivalent to)."""
     dec = _dec()
     B, n = len(rows_m), len(rows_m[0])
     temp = T[0] / T[1]
@@ -200,6 +215,11 @@ def run_config(ctx, rows_m, masks, T, k, p, C, tag, compare_model=True, raw_logi
     logits = raw_logits if raw_logits is not None else real_logits(rows_m, T, C)
     mask = torch.tensor(masks, dtype=torch.bool)
     kw = dict(temperature=temp, top_k=k, tanh_clipping=float(C))
+    if not mask_logits:
+        assert bool(mask.all())
+        kw["mask_logits"] = False
+        mask = None
+        ctx.count("configs with mask_logits=False (mask=None)")
     try:
         with Recorder() as rec:
             lp = dec.process_logits(logits.clone(), mask, top_p=top_p, **kw)
@@ -215,7 +235,7 @@ def run_config(ctx, rows_m, masks, T, k, p, C, tag, compare_model=True, raw_logi
     if 0 < top_p < 1 and sig is None:
         ctx.count("oracle-sort-not-recorded")
     q = dec.process_logits(logits.clone(), mask, top_p=0.0, **kw).exp()
-    shift = ctx.rng.choice([3.0, -7.5, 100.0, 0.25])
+    shift = ctx.rng.choice(list(shifts))
     lp2 = dec.process_logits(logits.clone() + shift, mask, top_p=top_p, **kw)
     try:
         ga = dec.DecodingStrategy.greedy(lp, mask).tolist()
@@ -228,6 +248,12 @@ def run_config(ctx, rows_m, masks, T, k, p, C, tag, compare_model=True, raw_logi
         sa = None
     probs = lp.exp()
     kept = torch.isfinite(lp)
+    # the unfiltered distribution by its definition (float64): softmax over the feasible actions of clip(logit)/T
+    z = logits.double()
+    if C:
+        z = torch.tanh(logits).double() * float(C)
+    z = (z / temp).masked_fill(~torch.tensor(masks, dtype=torch.bool), float("-inf"))
+    q_ref = torch.softmax(z, -1)
     nanrow = (torch.isnan(lp).any(-1) | torch.isnan(lp2).any(-1) | torch.isnan(q).any(-1)).tolist()
     lines, meta = [], []
     for b in range(B):
@@ -245,9 +271,15 @@ def run_config(ctx, rows_m, masks, T, k, p, C, tag, compare_model=True, raw_logi
         if s is None:
             ctx.violation("sampling-assert", "DecodingStrategy.sampling raised on process_logits output", wit)
         if compare_model:
-            lines.append(model_line(ms, mk, T, k, p, C, [kth_idx[b]] if kth_idx is not None else [],
-                                    sig[b] if sig is not None else [], [g if g is not None else 0, s if s is not None else 0]))
+            # mask_logits=False: the model (processLogitsOpt false) gets an arbitrary mask and must ignore it
+            mm = mk if mask_logits else [ctx.rng.random() < 0.5 for _ in range(n)]
+            lines.append(model_line(ms, mm, T, k, p, C, [kth_idx[b]] if kth_idx is not None else [],
+                                    sig[b] if sig is not None else [], [g if g is not None else 0, s if s is not None else 0],
+                                    ml=1 if mask_logits else 0))
             meta.append(("model", b, wit))
+        if k == 0 and float((q[b].double() - q_ref[b]).abs().max()) > TOL:
+            ctx.violation("spec-unfiltered", "process_logits with top_k=0, top_p=0 is not the masked softmax of clip(logits)/T",
+                          {"real": q[b].tolist(), "definition": q_ref[b].tolist(), **wit})
         score = ms if raw_logits is None else rows_m[b]
         lines.append(spec_line(n, k, p, mk, score, kept[b].tolist(), ticks(probs[b]), ticks(q[b]),
                                ticks(lp2[b].exp()), g, s))
@@ -309,11 +341,13 @@ def run_config(ctx, rows_m, masks, T, k, p, C, tag, compare_model=True, raw_logi
             if ctx.evaluations % 997 == 1:
                 ctx.sample({"input": wit, "model_reply": rep[:300], "real_support": rl.mask_str(kept[b])})
         else:
-            near = b in margin_of and margin_of[b] < MARGIN
+            near = (b in margin_of and margin_of[b] < MARGIN) or near_threshold(q[b].double().tolist(), top_p)
             names = {"isdist": "probabilities are a normalised distribution", "maskedzero": "masked actions have zero probability",
                      "argmax": "a most likely feasible action is kept", "topkcard": "top-k keeps at most k (ties aside)",
                      "topkge": "no more feasible actions than k: nothing feasible removed by top-k",
-                     "toppmass": "kept mass >= top_p of the pre-top-p distribution", "close": "adding a constant changes nothing",
+                     "toppmass": "kept mass >= top_p of the pre-top-p distribution",
+                     "tight": "top-p keeps nothing superfluous: the actions strictly more likely than a kept action carry mass < top_p",
+                     "close": "adding a constant changes nothing",
                      "greedy": "greedy returns a feasible maximiser", "sample": "sampling returns a feasible action of positive probability"}
             for key, txt in names.items():
                 v = f.get(key)
@@ -336,7 +370,9 @@ def run_config(ctx, rows_m, masks, T, k, p, C, tag, compare_model=True, raw_logi
                         ctx.count("shift check tie-skipped")
                         continue
                     wit = {"shift": shift, "p": probs[b].tolist(), "p_shifted": lp2[b].exp().tolist(), **wit}
-                ctx.violation("spec-" + key, "property clause fails on the real code: " + txt, {"spec_reply": rep, **wit})
+                ctx.violation("spec-" + key, "property clause fails on the real code: " + txt,
+                              {"spec_reply": rep, "real_probs": probs[b].tolist(), "real_support": rl.mask_str(kept[b]),
+                               "pre_top_p_distribution": q[b].tolist(), **wit})
     return lp
 
 
@@ -414,6 +450,51 @@ def corr_process(ctx):
         run_config(ctx, ks, mk, T, k, p, 0, "huge-magnitude", compare_model=False, raw_logits=raw)
         ctx.count("configs huge-magnitude (spec only)")
 
+    # mask_logits=False (mask=None): must behave as an all-feasible mask
+    for it in range(ctx.budget(60, 600)):
+        n = rng.randint(1, 12)
+        T, p, C = rng.choice(TEMPS), rng.choice(PS), rng.choice(CLIPS)
+        k = rng.choice([0, 1, 2, n - 1, n, n + 1, rng.randint(0, n + 2)])
+        rows = [gen_exponents(rng, n, T, C, rng.choice(KINDS)) for _ in range(4)]
+        run_config(ctx, rows, [[True] * n] * 4, T, max(k, 0), p, C, "mask_logits=False", mask_logits=False)
+    # generic stream: arbitrary float logits, non-dyadic temperatures, arbitrary top_p / clipping constants;
+    # spec oracle on the real outcomes only (scores = order of the clipped float32 logits)
+    for it in range(ctx.budget(250, 2500)):
+        n = rng.choice([2, 3, 4, 5, 6, 8, 10, 20, 50]) if it % 4 else rng.randint(1, 7)
+        T = rng.choice([(3, 10), (7, 10), (1, 1), (3, 2), (3, 1), (10, 1), (1, 10)])
+        p = rng.choice([(0, 1), (1, 20), (3, 10), (3, 5), (4, 5), (19, 20), (99, 100), (1, 1)])
+        C = rng.choice([0, 0, 1, 10, 50])
+        k = rng.choice([0, 0, 1, 2, 3, n // 2, n - 1, n, n + 3])
+        B = 6
+        kind = rng.choice(["normal", "peaked", "flat", "ties"])
+        raws = []
+        for _ in range(B):
+            if kind == "normal":
+                r = [rng.gauss(0, 3) for _ in range(n)]
+            elif kind == "peaked":
+                r = [rng.gauss(0, 0.3) for _ in range(n)]
+                r[rng.randrange(n)] += rng.choice([3.0, 6.0, 20.0])
+            elif kind == "flat":
+                r = [rng.gauss(0, 0.05) for _ in range(n)]
+            else:
+                pool = [rng.gauss(0, 2) for _ in range(max(1, n // 2))]
+                r = [rng.choice(pool) for _ in range(n)]
+            raws.append(r)
+        raw = torch.tensor(raws, dtype=torch.float32)
+        clipped = torch.tanh(raw) * float(C) if C else raw
+        scores = []
+        for b in range(B):
+            vals = sorted(set(clipped[b].tolist()))
+            scores.append([vals.index(v) for v in clipped[b].tolist()])
+        # rows of one batch with different numbers of feasible actions (1, all, all but one, random)
+        mk = [gen_mask(rng, n, ["single", "all", "allbut1", "random", "random", "all"][b]) for b in range(B)]
+        ml = True
+        if it % 7 == 0:
+            mk, ml = [[True] * n] * B, False
+        run_config(ctx, scores, mk, T, max(k, 0), p, C, "generic-floats", compare_model=False, raw_logits=raw,
+                   mask_logits=ml, shifts=(3.0, -7.5, 0.25))
+        ctx.count("configs generic-floats (spec only)")
+
 
 def corr_select(ctx):
     """`DecodingStrategy.greedy` / `.sampling` on arbitrary log-probabilities and masks (not necessarily
@@ -444,8 +525,11 @@ def corr_select(ctx):
         mask = torch.tensor(mk, dtype=torch.bool)
         # greedy
         am = lp.argmax(-1).tolist()
+        via = it % 2 == 1  # the module-level entry point used by PtrNet / MDAM / MatNet-FFSP loops
+        ctx.count("select via decode_logprobs" if via else "select via DecodingStrategy static methods")
         try:
-            ga = dec.DecodingStrategy.greedy(lp.clone(), mask).tolist()
+            ga = (dec.decode_logprobs(lp.clone(), mask, decode_type="greedy") if via
+                  else dec.DecodingStrategy.greedy(lp.clone(), mask)).tolist()
         except AssertionError:
             ga = None
         for b in range(B):
@@ -456,14 +540,11 @@ def corr_select(ctx):
         torch.manual_seed(rng.randrange(1 << 30))
         with Recorder() as rec:
             try:
-                sa = dec.DecodingStrategy.sampling(lp.clone(), mask).tolist()
+                sa = (dec.decode_logprobs(lp.clone(), mask, decode_type="sampling") if via
+                      else dec.DecodingStrategy.sampling(lp.clone(), mask)).tolist()
             except AssertionError:
                 sa = None
         draws = rec.draws
-        if sa is None:
-            # unreachable in the code as modelled: the loop only exits when every row is feasible
-            ctx.disagreement("DecodingStrategy.sampling raised its assertion (the model's loop cannot exit on an infeasible draw)",
-                             {"mask": mk, "draws": draws})
         ctx.count("sampling: resampled" if len(draws) > 1 else "sampling: first draw accepted")
         if not draws:
             ctx.count("draws-not-recorded")
@@ -475,6 +556,11 @@ def corr_select(ctx):
         if B == 1:
             lines.append(f"logits.sample {n} | {flatm} | {flatd}")
             checks.append(("sample", 1, sa, {"mask": mk, "draws": draws}))
+            if via:  # the model's decode_logprobs dispatch
+                lines.append(f"logits.decode 0 {n} | {flatm} | 0 | {flatd}")
+                checks.append(("decode-sampling", 1, sa, {"mask": mk, "draws": draws}))
+                lines.append(f"logits.decode 1 {n} | {flatm} | {ga[0] if ga is not None else am[0]} | ")
+                checks.append(("decode-greedy", 1, ga, {"mask": mk, "logprobs_over_ln2": vals, "finite": fin}))
     replies = ctx.driver.ask_many(lines)
     pos = 0
     for what, B, real, wit in checks:
@@ -497,7 +583,9 @@ def corr_select(ctx):
             r = parse_fields(replies[pos]).get("res")
             pos += 1
             ctx.case((what, str(wit)))
-            want = "none" if real is None else (",".join(map(str, real)) if what == "sampleB" else str(real[0]))
+            # the model answers `assert` when the loop exits on an infeasible draw and the assertion fires
+            # (never, by Rl4co.Decode.sampleLoopB_never_asserts, for the committed loop condition)
+            want = "assert" if real is None else (",".join(map(str, real)) if what == "sampleB" else str(real[0]))
             if r != want:
                 ctx.disagreement("resampling loop of DecodingStrategy.sampling", {"real": real, "model": r, "op": what, **wit})
             if real is not None:
@@ -519,8 +607,14 @@ def corr_step(ctx):
         mk = [gen_mask(rng, n, rng.choice(["random", "single", "all"])) for _ in range(B)]
         logits = real_logits(rows, T, C)
         mask = torch.tensor(mk, dtype=torch.bool)
+        ml = it % 4 != 3
+        given_mask = mask
+        if not ml:  # mask_logits=False: the strategy drops the mask; must behave as an all-feasible mask
+            mk = [[True] * n for _ in range(B)]
+            ctx.count("step with mask_logits=False")
         for name, cls in (("greedy", dec.Greedy), ("sampling", dec.Sampling)):
-            strat = cls(temperature=T[0] / T[1], top_p=p[0] / p[1], top_k=k, tanh_clipping=float(C), mask_logits=True)
+            strat = cls(temperature=T[0] / T[1], top_p=p[0] / p[1], top_k=k, tanh_clipping=float(C), mask_logits=ml)
+            mask = given_mask
             td = TensorDict({}, batch_size=[B])
             torch.manual_seed(rng.randrange(1 << 30))
             with Recorder() as rec:
@@ -529,8 +623,9 @@ def corr_step(ctx):
             lpa = strat.logprobs[-1].tolist()
             kth_idx = rec.topk[0][1][..., -1].tolist() if (k > 0 and len(rec.topk) == 1) else None
             sig = rec.sort[0][0][1].tolist() if (len(rec.sort) == 1 and not rec.sort[0][1]) else None
-            lines = [model_line(rows[b], mk[b], T, k, p, C, [kth_idx[b]] if kth_idx is not None else [],
-                                sig[b] if sig is not None else [], [act[b], act[b]]) for b in range(B)]
+            lines = [model_line(rows[b], mk[b] if ml else given_mask[b].tolist(), T, k, p, C,
+                                [kth_idx[b]] if kth_idx is not None else [],
+                                sig[b] if sig is not None else [], [act[b], act[b]], ml=1 if ml else 0) for b in range(B)]
             for b, rep in enumerate(ctx.driver.ask_many(lines)):
                 f = parse_fields(rep)
                 wit = {"strategy": name, "n": n, "exponents_after_temperature": rows[b], "mask": [int(x) for x in mk[b]],
@@ -556,30 +651,26 @@ def corr_step(ctx):
 
 
 def probe_float(ctx):
-    """Float32 effects outside the real-number model (DESIGN §6 C10 L / §8): `1 - top_p` rounds to 1.0
-    for `top_p` below float32 resolution; before upstream fix 0ef23b5 (`sorted_indices_to_remove[..., -1] =
-    False`, mirrored in the model, `Rl4co.Decode.last_never_removed`) the whole row was filtered out and
-    the log-probabilities were NaN.  Any such row is now a plain violation."""
-    dec = _dec()
+    """Float32 effects outside the real-number model (DESIGN §6 C10 L / §8): for `top_p` below float32
+    resolution `1 - top_p` rounds to 1.0.  Before upstream fix 0ef23b5 (`sorted_indices_to_remove[..., -1] =
+    False`, mirrored in the model, `Rl4co.Decode.last_never_removed`) the whole row was filtered out.  Rows of
+    different sizes, with and without masked actions, ties at the top; the outcome of the real code is judged by
+    the spec oracle (no NaN, normalised, masked zero, a most likely feasible action kept, nothing superfluous
+    kept)."""
     rng = ctx.rng
-    for top_p in (1e-9, 1e-8, 1e-7, 1e-6, 1e-5, 1e-4, 1e-3):
-        bad = 0
-        first = None
-        for it in range(ctx.budget(30, 200)):
-            n = rng.choice([2, 3, 5, 20, 100])
-            ks = [rng.randint(-4, 4) for _ in range(n)]
-            lg = torch.tensor([[v * LN2 for v in ks]], dtype=torch.float32)
-            mask = torch.ones(1, n, dtype=torch.bool)
-            lp = dec.process_logits(lg.clone(), mask, top_p=top_p)
-            ctx.case(("probe", top_p, tuple(ks)))
-            if torch.isnan(lp).any() or not torch.isfinite(lp).any():
-                bad += 1
-                if first is None or n < first["n"]:
-                    first = {"n": n, "logits_over_ln2": ks, "top_p": top_p, "logprobs": [str(v) for v in lp[0].tolist()]}
-        ctx.count(f"float probe top_p={top_p:g}: rows with no finite log-prob", bad)
-        if bad:
-            ctx.violation(KEY_TOPP_EPS, f"top_p={top_p:g}: every action is filtered out and the log-probabilities are NaN "
-                                        f"({bad} rows)", first)
+    for pd in (10 ** 9, 10 ** 12, 10 ** 15, 10 ** 20, 10 ** 8, 3 * 10 ** 7, 10 ** 7, 10 ** 6, 10 ** 5, 10 ** 4):
+        for it in range(ctx.budget(4, 30)):
+            n = rng.choice([1, 2, 3, 5, 8, 20, 100])
+            B = 6
+            T = rng.choice(TEMPS)
+            k = rng.choice([0, 0, 0, 1, n, rng.randint(0, n + 1)])
+            ks = [[rng.randint(-4, 4) for _ in range(n)] for _ in range(B)]
+            mk = [gen_mask(rng, n, ["all", "random", "allbut1", "single", "random", "all"][b]) for b in range(B)]
+            raw = torch.tensor([[v * LN2 for v in r] for r in ks], dtype=torch.float64).to(torch.float32)
+            run_config(ctx, ks, mk, T, k, (1, pd), 0, f"tiny-top-p", compare_model=False, raw_logits=raw)
+            ctx.count(f"float probe rows top_p=1e-{len(str(pd)) - 1}" if str(pd)[0] == "1" else "float probe rows top_p=3.3e-8", B)
+            for _ in range(B):
+                ctx.case(("probe", pd, it, _))
 
 
 def run(ctx):
@@ -592,10 +683,15 @@ def run(ctx):
 MODEL_NOTE = ("process_logits / top-k / top-p / greedy / sampling modelled per row over an abstract ordered field with an "
               "abstract exp-like weight (Rl4co/Decode/ProcessLogits.lean); float32 rounding is outside the model "
               "(rows whose top-p comparison has an exact margin < 5e-5 are counted as tie-skipped)")
+TOKEN_NOTE = ("translator tie: 12 AST probes (harness/probes/logits.py) regenerate the decision-critical tokens of decoding.py "
+              "(statement order, comparison operators, top_k clamp/offset/index, top-p threshold/guard/sort direction/protected "
+              "index, mask fill, sampling loop condition, greedy reduction) into Generated/Params.lean; the model is parametric in "
+              "them and the `*_eq` / `*_iff` lemmas need the committed values")
 ORACLE_NOTE = ("torch.topk / sort / argmax tie-breaking and torch.multinomial are oracle inputs: the model only requires "
                "them to be valid (k-th largest index, ascending sorting permutation, maximiser, positive probability); "
                "what torch returned is recorded through a module proxy and validated by the model on every row")
-SCOPE_NOTE = "mask_logits=True only (mask_logits=False deliberately disables the property's premise)"
+SCOPE_NOTE = ("mask_logits=False (mask=None) is modelled as an all-feasible mask (processLogitsOpt, nomask_sound) and driven through "
+              "process_logits and the strategies' step")
 
 T = "Rl4co.Decode."
 THEOREMS = [
@@ -609,6 +705,25 @@ THEOREMS = [
     Theorem(T + "topk_ge_feasible", "proved", "top-p off and #feasible ≤ k ⇒ every feasible action is in the support"),
     Theorem(T + "topp_mass_ge", "proved", "the support carries mass ≥ top_p of the distribution entering the top-p filter (top_p ≤ 1)"),
     Theorem(T + "last_never_removed", "proved", "the upstream line `sorted_indices_to_remove[..., -1] = False` (mirrored in the model) is a no-op in exact arithmetic: the last sorted position has cumulative probability 1 > 1 - top_p"),
+    Theorem(T + "topp_tight", "proved", "top_p > 0: the actions strictly more likely than a kept action carry mass < top_p (nothing superfluous is kept, ties aside)"),
+    Theorem(T + "runStages_canonical", "proved", "translator tie: with the extracted statement order, process_logits is clip → mask → /T → top-k → top-p (→ softmax)"),
+    Theorem(T + "stageOrder_eq", "proved", "obligation on the extracted `logitsStageOrder`"),
+    Theorem(T + "topkOn_eq", "proved", "obligation on the extracted `if top_k > 0`"),
+    Theorem(T + "kEff_eq", "proved", "obligation on the extracted `min(top_k, n)` clamp and `torch.topk(logits, top_k)[0][..., -1]` (the threshold is the min(k,n)-th largest)"),
+    Theorem(T + "cmpO_topk", "proved", "obligation on the extracted top-k comparison `logits < kth`"),
+    Theorem(T + "toppOff_iff", "proved", "obligation on the extracted guards `top_p > 0`, `top_p <= 0.0 or top_p >= 1.0`"),
+    Theorem(T + "toppFlag_iff", "proved", "obligation on the extracted `cumulative_probs <= (1 - top_p)`"),
+    Theorem(T + "sortLe_eq", "proved", "obligation on the extracted `descending=False`"),
+    Theorem(T + "protPos_eq", "proved", "obligation on the extracted protected index `[..., -1]`"),
+    Theorem(T + "maskStage_eq", "proved", "obligation on the extracted mask fill `logits[~mask] = -inf`"),
+    Theorem(T + "greedyLe_eq", "proved", "obligation on the extracted `argmax` of greedy"),
+    Theorem(T + "rowFlag_eq", "proved", "obligation on the extracted loop flag `(~mask).gather(...)` of sampling"),
+    Theorem(T + "contCond_eq", "proved", "obligation on the extracted `.any()` of the sampling loop"),
+    Theorem(T + "sampleLoop_never_asserts", "proved", "the assertion after the sampling loop never fires (single row)"),
+    Theorem(T + "sampleLoopB_never_asserts", "proved", "… nor for a batch: the loop `.any()` exits only when every row is feasible"),
+    Theorem(T + "decodeLogprobs_feasible", "proved", "decode_logprobs (greedy / sampling dispatch) only returns feasible actions"),
+    Theorem(T + "nomask_sound", "proved", "mask_logits=False: all distribution clauses hold with every action feasible, whatever mask is passed"),
+    Theorem(T + "step_nomask", "proved", "Greedy/Sampling(mask_logits=False).step return the argmax / first draw unchecked"),
     Theorem(T + "shift_invariant", "proved", "clipping off: adding a constant to all logits changes neither probabilities nor support"),
     Theorem(T + "valid_shift", "proved", "clipping off: the valid oracle inputs of shifted and unshifted logits coincide"),
     Theorem(T + "shift_invariant_clipped_counterexample", "proved",
@@ -629,9 +744,9 @@ THEOREMS = [
 ]
 
 register(Unit("C10", "logits", run, drivers=["drv_logits"],
-              lean_modules=["Rl4co.Props.C10.Logits", "Rl4co.Props.C10.LogitsReal", "Rl4co.Props.C10.LogitsExists"],
+              lean_modules=["Rl4co.Props.C10.Logits", "Rl4co.Props.C10.LogitsReal", "Rl4co.Props.C10.LogitsExists", "Rl4co.Props.C10.LogitsTight", "Rl4co.Props.C10.LogitsOpt"],
               theorems=THEOREMS,
-              assumptions=[MODEL_NOTE, ORACLE_NOTE, SCOPE_NOTE,
+              assumptions=[MODEL_NOTE, ORACLE_NOTE, SCOPE_NOTE, TOKEN_NOTE,
                            "the driver instantiates the model with rationals and the weight 2^y on integer logits "
                            "(the real code is fed y·ln 2); the theorems are stated for every ordered field and exp-like weight, "
                            "instantiated with Real.exp",
